@@ -8,6 +8,7 @@ import Driver.C01
 import Driver.C02
 import Driver.C16
 import Driver.C13
+import Driver.C05
 open Lean Driver
 
 def handlers : List (String × Handler) := [
@@ -19,7 +20,8 @@ def handlers : List (String × Handler) := [
   ("C01", Driver.C01.handle),
   ("C02", Driver.C02.handle),
   ("C16", Driver.C16.handle),
-  ("C13", Driver.C13.handle)
+  ("C13", Driver.C13.handle),
+  ("C05", Driver.C05.handle)
 ]
 
 def processLine (line : String) : String :=
